@@ -156,11 +156,18 @@ def _release_lock_on_arr_writeability(arr: np.ndarray):
             _views_waiting_for_unlock[arr_id].remove(view_arr_id)
 
             try:
-                view_arr = _array_tracker.pop(view_arr_id)()
-                if view_arr is None:
-                    continue
+                view_arr = _array_tracker[view_arr_id]()
             except KeyError:
                 # view array is no longer available for unlocking
+                continue
+
+            if view_arr is not None and view_arr.base is not arr:
+                # the view that was waiting has died and its id was recycled
+                # by an unrelated array, which is tracked in its own right
+                continue
+
+            del _array_tracker[view_arr_id]
+            if view_arr is None:
                 continue
 
             try:
